@@ -20,6 +20,7 @@ CONSTANTS
   MaxN,       \* block shapes: 1..MaxN slices
   Classes,    \* scenario classes enumerated
   SwitchIn,   \* honest blocks with a parent switch are also used as the base of conflict scenarios?
+  RepairOn,   \* honest scenarios: the node also repairs the leader's block (add_shred_from_repair under its hash)
   Vias        \* how a shred reaches the store: "node" (validated against the cached commitment,
               \* as consensus.rs does) and/or "direct" (fully verified, handed to the store)
 
@@ -75,16 +76,18 @@ AllScenarios == ScHonest \cup ScConflictContent \cup ScConflictFlag \cup ScBeyon
 ScenarioSet == {x \in AllScenarios : x.cls \in Classes}
 
 ---------------------------------------------------------------------------
-VARIABLES sc, role, bs, hist, act, out, sid
+VARIABLES sc, role, bs, rp, hist, act, out, sid
+\* bs: dissemination spot (+ the slot's misbehaviour flag); rp: repair spot filed under the leader's block hash
 
-vars == <<sc, role, bs, hist, act, out, sid>>
-View == <<sc, role, bs, hist>>
+vars == <<sc, role, bs, rp, hist, act, out, sid>>
+View == <<sc, role, bs, rp, hist>>
 
 Unset == Sc("unset", <<>>, 0, FALSE)
 \* ghost: events announced so far (saturating), a Block announced after InvalidBlock, slices seen
-EmptyHist == [nFirst |-> 0, nBlock |-> 0, nInvalid |-> 0, lateBlock |-> FALSE, seen |-> {}]
+\* nFirstR / nBlockR: announcements on behalf of the repair spot
+EmptyHist == [nFirst |-> 0, nBlock |-> 0, nInvalid |-> 0, lateBlock |-> FALSE, seen |-> {}, nFirstR |-> 0, nBlockR |-> 0]
 
-Id(x, r, b, h) == <<TLCFP(<<x, r, b, h>>), TLCFP(<<h, b, r, x, 7>>)>>
+Id(x, r, b, p, h) == <<TLCFP(<<x, r, b, p, h>>), TLCFP(<<h, p, b, r, x, 7>>)>>
 
 \* JSON views -------------------------------------------------------------
 \* a commitment / root is printed as the number of the scenario's slice that carries it (0: none)
@@ -105,15 +108,33 @@ NextHist(h, evs, k) ==
    nInvalid |-> Min2(2, h.nInvalid + Count(evs, "InvalidBlock")),
    lateBlock |-> h.lateBlock \/ (Count(evs, "Block") > 0 /\
                     (h.nInvalid > 0 \/ (Count(evs, "InvalidBlock") > 0 /\ FirstPos(evs, "InvalidBlock") < FirstPos(evs, "Block")))),
-   seen |-> h.seen \cup k]
+   seen |-> h.seen \cup k, nFirstR |-> h.nFirstR, nBlockR |-> h.nBlockR]
+NextHistR(h, evs) ==
+  [h EXCEPT !.nFirstR = Min2(2, @ + Count(evs, "FirstShred")),
+            !.nBlockR = Min2(2, @ + Count(evs, "Block")),
+            !.nInvalid = Min2(2, @ + Count(evs, "InvalidBlock"))]
+
+\* the block a correct leader signed (honest scenarios)
+LeaderBlock == [ok |-> TRUE,
+                hash |-> [k \in 1..sc.n |-> Root(sc.sl[k])],
+                par |-> IF \E k \in 2..sc.n : sc.sl[k].par # NoPar
+                        THEN sc.sl[CHOOSE k \in 2..sc.n : sc.sl[k].par # NoPar].par ELSE sc.sl[1].par,
+                ntx |-> SumTx([i \in 0..(sc.n - 1) |-> Root(sc.sl[i + 1])], sc.n - 1)]
 
 \* projection compared with the real store after every step
 HeldView(s, i) == [n |-> Cardinality(s.held[i]),
                    groups |-> {b \in DOMAIN Blocks : (Blocks[b][1]..Blocks[b][2]) \subseteq s.held[i]}]
 Obs == [bad |-> bs.bad,
         done |-> BlkJson(sc, bs.done),
-        \* after completion: every shred, slice root and proof of slices 0..last is served
-        serve |-> bs.done.ok,
+        \* after completion (of EITHER spot, for a correct leader's block): every shred, slice root and proof
+        \* of slices 0..last, the block and the last slice index are served for (slot, hash)
+        serve |-> IF sc.honest THEN (bs.done.ok \/ rp.done.ok) ELSE bs.done.ok,
+        \* what the getters show for the id (slot, hash of the leader's block) -- honest scenarios
+        get |-> IF sc.honest
+                THEN LET d == Resolve(bs, rp, LeaderBlock.hash) IN
+                     [last |-> GetLast(d), blk |-> GetBlock(d).ok,
+                      held |-> [k \in 1..(MaxIdx + 1) |-> HeldView(d, k - 1)]]
+                ELSE [last |-> -1, blk |-> FALSE, held |-> <<>>],
         last |-> IF bs.bad THEN -2 ELSE bs.last,
         cache |-> IF bs.bad THEN <<>> ELSE [k \in 1..(MaxIdx + 1) |-> SliceNo(sc, bs.cache[k - 1])],
         held |-> IF bs.bad THEN <<>> ELSE [k \in 1..(MaxIdx + 1) |-> HeldView(bs, k - 1)],
@@ -124,29 +145,41 @@ OutOf(x, o) == [rets |-> o.rets, evs |-> o.evs, blk |-> BlkJson(x, o.blk), why |
                 pool |-> IF o.blk.ok THEN "ok" ELSE "-"]
 
 Init ==
-  /\ sc = Unset /\ role = "none" /\ bs = EmptyStore /\ hist = EmptyHist
+  /\ sc = Unset /\ role = "none" /\ bs = EmptyStore /\ rp = EmptyStore /\ hist = EmptyHist
   /\ act = [op |-> "init"] /\ out = [rets |-> <<>>]
-  /\ sid = Id(sc, role, bs, hist)
+  /\ sid = Id(sc, role, bs, rp, hist)
 
 Setup ==
   /\ role = "none"
   /\ \E x \in ScenarioSet, ro \in {"follower", "leader"} :
        /\ (ro = "leader" => x.honest)
-       /\ sc' = x /\ role' = ro /\ UNCHANGED <<bs, hist>>
+       /\ sc' = x /\ role' = ro /\ UNCHANGED <<bs, rp, hist>>
        /\ act' = [op |-> "setup", sc |-> x, role |-> ro, blocks |-> Blocks, slot |-> BSlot,
-                    parslot |-> ParSlot, maxidx |-> MaxIdx]
+                    parslot |-> ParSlot, maxidx |-> MaxIdx, repair |-> RepairOn]
        /\ out' = [rets |-> <<>>, evs |-> <<>>, blk |-> BlkJson(x, NoB), why |-> "", pool |-> "-"]
-       /\ sid' = Id(x, ro, bs, hist)
+       /\ sid' = Id(x, ro, bs, rp, hist)
 
 DeliverStep ==
   /\ role = "follower"
   /\ \E k \in DOMAIN sc.sl, b \in DOMAIN Blocks, via \in Vias :
        LET o == Deliver(bs, sc.sl[k], Blocks[b][1], Blocks[b][2], via)
            h == NextHist(hist, o.evs, IF bs.bad THEN {} ELSE {k})
-       IN /\ bs' = o.s /\ hist' = h /\ UNCHANGED <<sc, role>>
+       IN /\ bs' = o.s /\ hist' = h /\ UNCHANGED <<sc, role, rp>>
           /\ act' = [op |-> "deliver", k |-> k, b |-> b, via |-> via]
           /\ out' = OutOf(sc, o)
-          /\ sid' = Id(sc, role, o.s, h)
+          /\ sid' = Id(sc, role, o.s, rp, h)
+
+\* repair of the leader's block: group b of its slice k is handed to add_shred_from_repair under the block's hash,
+\* in any interleaving with dissemination, before and after either spot completed
+RepairStep ==
+  /\ RepairOn /\ role = "follower" /\ sc.honest
+  /\ \E k \in 1..sc.n, b \in DOMAIN Blocks :
+       LET o == Repair(bs, rp, sc.sl[k], Blocks[b][1], Blocks[b][2])
+           h == NextHistR(hist, o.evs)
+       IN /\ bs' = o.s /\ rp' = o.p /\ hist' = h /\ UNCHANGED <<sc, role>>
+          /\ act' = [op |-> "repair", k |-> k, b |-> b]
+          /\ out' = OutOf(sc, o)
+          /\ sid' = Id(sc, role, o.s, o.p, h)
 
 OwnNext == Cardinality({i \in SliceIdx : bs.cache[i] # NoC}) + 1
 OwnStep ==
@@ -154,12 +187,12 @@ OwnStep ==
   /\ OwnEnabled(bs, sc.sl[OwnNext])
   /\ LET o == Own(bs, sc.sl[OwnNext])
          h == NextHist(hist, o.evs, {OwnNext})
-     IN /\ bs' = o.s /\ hist' = h /\ UNCHANGED <<sc, role>>
+     IN /\ bs' = o.s /\ hist' = h /\ UNCHANGED <<sc, role, rp>>
         /\ act' = [op |-> "own", k |-> OwnNext]
         /\ out' = OutOf(sc, o)
-        /\ sid' = Id(sc, role, o.s, h)
+        /\ sid' = Id(sc, role, o.s, rp, h)
 
-Next == Setup \/ DeliverStep \/ OwnStep
+Next == Setup \/ DeliverStep \/ OwnStep \/ RepairStep
 
 EmitEdge == PrintT(<<"EDGE", ToJson([f |-> sid, a |-> act', e |-> out', t |-> sid'])>>)
 EmitState == PrintT(<<"STATE", ToJson([id |-> sid, init |-> (TLCGet("level") = 1), obs |-> Obs])>>)
@@ -169,12 +202,6 @@ EmitState == PrintT(<<"STATE", ToJson([id |-> sid, init |-> (TLCGet("level") = 1
 Enough(i) == Cardinality(bs.held[i]) >= DATA
 Complete == /\ bs.last # -1
             /\ \A i \in 0..bs.last : bs.cache[i] # NoC /\ Enough(i) /\ ~SliceMalformed(i, CRoot(bs.cache[i]))
-LeaderBlock == [ok |-> TRUE,
-                hash |-> [k \in 1..sc.n |-> Root(sc.sl[k])],
-                par |-> IF \E k \in 2..sc.n : sc.sl[k].par # NoPar
-                        THEN sc.sl[CHOOSE k \in 2..sc.n : sc.sl[k].par # NoPar].par ELSE sc.sl[1].par,
-                ntx |-> SumTx([i \in 0..(sc.n - 1) |-> Root(sc.sl[i + 1])], sc.n - 1)]
-
 \* a Block is announced iff >= 32 shreds of every slice 0..last are held and the content is well formed
 BlockIffComplete ==
   /\ bs.done.ok => (Complete /\ BlockWellFormed(Payloads(bs)))
@@ -219,11 +246,22 @@ RefusesAfterInvalid ==
   (act.op = "deliver" /\ hist.nInvalid = 1 /\ Count(out.evs, "InvalidBlock") = 0)
      => (out.evs = <<>> /\ \A i \in DOMAIN out.rets : out.rets[i] = "invalid")
 
-\* after completion every shred, slice root and proof of the block is available
-ServesAll == bs.done.ok =>
-  \A i \in 0..bs.last : /\ HasProof(bs, i)
-                        /\ GetSliceRoot(bs, i) = bs.done.hash[i + 1]
-                        /\ \A r \in Shreds : GetShred(bs, i, r) = <<bs.cache[i], r>>
+\* after completion every shred, slice root and proof of the block is available: asked by block id, the store
+\* answers from the dissemination spot if that completed the block, else from the repair spot; once EITHER spot
+\* completed the block everything is served, whatever the other spot holds
+ServesAll ==
+  /\ bs.done.ok => ServesBlock(Resolve(bs, rp, bs.done.hash))
+  /\ (sc.honest /\ (bs.done.ok \/ rp.done.ok)) =>
+        LET d == Resolve(bs, rp, LeaderBlock.hash) IN ServesBlock(d) /\ GetBlock(d) = LeaderBlock /\ GetLast(d) = sc.n - 1
+\* the repair spot: its own first shred and its own completion are announced exactly once each (the code
+\* announces FirstShred and Block per spot: a block completed by dissemination AND by repair is announced twice)
+RepairSpotOnce ==
+  /\ hist.nFirstR <= 1 /\ hist.nBlockR <= 1
+  /\ (hist.nBlockR = 1 <=> rp.done.ok)
+  /\ ((\E i \in SliceIdx : rp.held[i] # {}) <=> hist.nFirstR = 1)
+  /\ (rp.done.ok => rp.done = LeaderBlock)
+  /\ ~rp.bad
+RepairCompletes == (sc.honest /\ \A k \in 1..sc.n : Cardinality(rp.held[k - 1]) >= DATA) => rp.done.ok
 
 \* the leader's own fast path stores the same block a follower reconstructs
 RECURSIVE FastStore(_, _, _)
@@ -243,5 +281,7 @@ Structure ==
 \* witnesses (must be violated: the interesting states are reachable)
 W_HonestDone == ~(sc.honest /\ role = "follower" /\ bs.done.ok /\ sc.n = MaxN)
 W_DoneThenBad == ~(bs.done.ok /\ bs.bad)
+W_RepairThenDissem == ~(rp.done.ok /\ bs.done.ok)
+W_DissemDoneRepairPartial == ~(bs.done.ok /\ ~rp.done.ok /\ \E i \in SliceIdx : rp.held[i] # {})
 W_BadClass(c) == ~(sc.cls = c /\ bs.bad)
 =============================================================================
